@@ -6,10 +6,18 @@ def hx(s):
     return s.encode("latin1").hex()
 
 
+def partner(g):
+    """identity of a determinant's partner as Group.__eq__ sees it: the printed label, plus the residue number for hetero groups"""
+    a = getattr(g, "atom", None)
+    if a is not None and getattr(a, "type", "atom") != "atom":
+        return "%s#%d" % (g.label, a.res_num)
+    return g.label
+
+
 def enc_dets(dets):
     if not dets:
         return "-"
-    return ",".join("%s:%s:%d" % (hx(d.group.label), hx(d.label), common.bits(d.value)) for d in dets)
+    return ",".join("%s:%s:%d" % (hx(partner(d.group)), hx(d.label), common.bits(d.value)) for d in dets)
 
 
 def enc_group(g):
@@ -19,7 +27,7 @@ def enc_group(g):
 
 
 def real_dets(dets):
-    return [(d.group.label, d.label, common.bits(d.value)) for d in dets]
+    return [(partner(d.group), d.label, common.bits(d.value)) for d in dets]
 
 
 def dec_dets(s):
